@@ -25,3 +25,7 @@ pub(crate) fn verif_to_iso8601<V: ValT>(v: &V) -> bool {
     core::mem::forget(r);
     ok
 }
+#[cfg(kani)]
+pub(crate) fn verif_datetime_to_array<V: ValT>(dt: DateTime) -> [V; 8] {
+    datetime_to_array(dt)
+}
